@@ -16,7 +16,10 @@ package main
 //	         objects; Gen uses the salts to make the hash order equal to the id order when a case contains a
 //	         crash op, because the position of the crash in the delete sequence depends on the key order)
 //	tblidx, prof, blocks, blkidx = (id ...)             sets of the ids that are STORED (tblidx/prof: table ids)
-//	refs   = ((kind num commit) ...)   0 heads/b<num> | 1 tags/t<num> | 2 remotes/r<num%3>/b<num> | 3 txs/<uuid(num/4)>/b<num>
+//	refs   = ((kind num commit) ...)   kind 0 heads/ | 1 tags/ | 2 remotes/ | 3 txs/<uuid(num/4)>/ ; num%4 selects a flat or a
+//	         multi-component name (heads/a/b<num>, tags/rel/1/t<num>, remotes/origin/feature/x<num>, remotes/my/remote/x<num>,
+//	         txs/<uuid>/feature/x<num>, txs/<uuid>/a/b/c<num>, ...: see c12RefName); transaction groups with (num/4)%3 != 2
+//	         exist as rows of the ref store, the others are txs/ refs without a transaction row
 //	op     = (0) prune | (1 kind num) delete ref | (2 kind num commit) set ref
 //	       | (3 k) prune on a store whose (k+1)-th Delete fails and deletes nothing (mode 0 only)
 //	obs    = (r ...) one per op; r = () for ops 1,2 (and unknown tags); for ops 0,3: (status trace keysets)
@@ -615,35 +618,57 @@ func c12TxID(num uint64) (tx ref.Transaction) {
 	return
 }
 
+// c12TxHasRow: two of every three transaction groups exist as rows of the ref store (rs.NewTransaction);
+// the refs of the third are plain txs/<uuid>/... refs without a transaction row - still refs.
+func c12TxHasRow(num uint64) bool { return (num/4)%3 != 2 }
+
+// c12RefName: names of every kind come flat and with multi-component branch / tag / remote names,
+// selected by num%4 (the model treats names as opaque, prune must honour every one of them).
 func c12RefName(kind, num uint64) (string, error) {
 	if num >= 1<<32 {
 		return "", fmt.Errorf("ref number %d too large", num)
 	}
+	v := num % 4
 	switch kind {
 	case 0:
-		return fmt.Sprintf("heads/b%d", num), nil
+		return [4]string{"heads/b%d", "heads/a/b%d", "heads/feature/x/b%d", "heads/b%d/c"}[v], nil
 	case 1:
-		return fmt.Sprintf("tags/t%d", num), nil
+		return [4]string{"tags/t%d", "tags/v/%d", "tags/rel/1/t%d", "tags/t%d/x"}[v], nil
 	case 2:
-		return fmt.Sprintf("remotes/r%d/b%d", num%3, num), nil
+		return [4]string{"remotes/r%[2]d/b%[1]d", "remotes/origin/feature/x%[1]d", "remotes/my/remote/x%[1]d", "remotes/r%[2]d/a/b/c%[1]d"}[v], nil
 	case 3:
 		tx := c12TxID(num)
-		return fmt.Sprintf("txs/%s/b%d", tx.ID.String(), num), nil
+		return "txs/" + tx.ID.String() + [4]string{"/b%d", "/feature/x%d", "/a/b/c%d", "/x%d/y"}[v], nil
 	}
 	return "", fmt.Errorf("unknown ref kind %d", kind)
 }
 
+func c12RefNameOf(kind, num uint64) (string, error) {
+	f, err := c12RefName(kind, num)
+	if err != nil {
+		return "", err
+	}
+	if kind == 2 {
+		return fmt.Sprintf(f, num, num%3), nil
+	}
+	return fmt.Sprintf(f, num), nil
+}
+
+// c12Refs writes refs into the ref store and keeps the expected ref map (name -> sum) itself: the
+// oracle's roots are this map (every ref of the case, whatever its name looks like), not a listing
+// of the store.
 type c12Refs struct {
 	rs  ref.Store
 	txs map[string]bool
+	cur map[string]string
 }
 
 func (r *c12Refs) set(kind, num uint64, sum string) error {
-	name, err := c12RefName(kind, num)
+	name, err := c12RefNameOf(kind, num)
 	if err != nil {
 		return err
 	}
-	if kind == 3 {
+	if kind == 3 && c12TxHasRow(num) {
 		tx := c12TxID(num)
 		if !r.txs[tx.ID.String()] {
 			if _, err := r.rs.NewTransaction(&tx); err != nil {
@@ -652,15 +677,57 @@ func (r *c12Refs) set(kind, num uint64, sum string) error {
 			r.txs[tx.ID.String()] = true
 		}
 	}
+	if r.cur == nil {
+		r.cur = map[string]string{}
+	}
+	r.cur[name] = sum
 	return r.rs.Set(name, []byte(sum))
 }
 
 func (r *c12Refs) del(kind, num uint64) error {
-	name, err := c12RefName(kind, num)
+	name, err := c12RefNameOf(kind, num)
 	if err != nil {
 		return err
 	}
+	delete(r.cur, name)
 	return r.rs.Delete(name)
+}
+
+// roots: the targets of the expected refs, in name order
+func (r *c12Refs) roots() []string {
+	names := make([]string, 0, len(r.cur))
+	for n := range r.cur {
+		names = append(names, n)
+	}
+	sort.Strings(names)
+	l := make([]string, 0, len(names))
+	for _, n := range names {
+		l = append(l, r.cur[n])
+	}
+	return l
+}
+
+// storeDiff compares the ref store with the expected ref map ("" = equal)
+func (r *c12Refs) storeDiff() string {
+	m, err := ref.ListAllRefs(r.rs)
+	if err != nil {
+		return err.Error()
+	}
+	for n, sum := range r.cur {
+		got, ok := m[n]
+		if !ok {
+			return fmt.Sprintf("ref %s is missing from the ref store", n)
+		}
+		if string(got) != sum {
+			return fmt.Sprintf("ref %s points at %x, expected %x", n, got, sum)
+		}
+	}
+	for n := range m {
+		if _, ok := r.cur[n]; !ok {
+			return fmt.Sprintf("unexpected ref %s in the ref store", n)
+		}
+	}
+	return ""
 }
 
 // ---------------------------------------------------------------------------
@@ -846,7 +913,7 @@ func (p *c12Plan) build(db objects.Store, refs *c12Refs) error {
 	// refs
 	seen := map[string]bool{}
 	for _, r := range st.refs {
-		name, err := c12RefName(r.kind, r.num)
+		name, err := c12RefNameOf(r.kind, r.num)
 		if err != nil {
 			return err
 		}
@@ -1099,7 +1166,7 @@ type c12Snap struct {
 	readErr error
 }
 
-func c12Snapshot(db objects.Store, rs ref.Store) *c12Snap {
+func c12Snapshot(db objects.Store, refs *c12Refs) *c12Snap {
 	s := &c12Snap{g: &c12G{commits: map[string]*c12GC{}, tables: map[string]*c12GT{}}}
 	fail := func(err error) *c12Snap { s.readErr = err; return s }
 	getters := []func(objects.Store) ([][]byte, error){objects.GetAllTableKeys, objects.GetAllTableIndexKeys,
@@ -1143,18 +1210,7 @@ func c12Snapshot(db objects.Store, rs ref.Store) *c12Snap {
 		}
 		s.g.tables[t] = gt
 	}
-	m, err := ref.ListAllRefs(rs)
-	if err != nil {
-		return fail(err)
-	}
-	names := make([]string, 0, len(m))
-	for n := range m {
-		names = append(names, n)
-	}
-	sort.Strings(names)
-	for _, n := range names {
-		s.g.refs = append(s.g.refs, string(m[n]))
-	}
+	s.g.refs = refs.roots()
 	return s
 }
 
@@ -1222,7 +1278,7 @@ func c12Run(ctx *Ctx, c *xt.T) (*xt.T, Verdict) {
 			return c12Malformed("crash op in mode %d", mode)
 		}
 		if tag == 1 || tag == 2 {
-			if _, err := c12RefName(c12Num(c12Nth(op, 1)), c12Num(c12Nth(op, 2))); err != nil {
+			if _, err := c12RefNameOf(c12Num(c12Nth(op, 1)), c12Num(c12Nth(op, 2))); err != nil {
 				return c12Malformed("%v", err)
 			}
 		}
@@ -1325,7 +1381,10 @@ func c12Run(ctx *Ctx, c *xt.T) (*xt.T, Verdict) {
 
 // pruneOp runs one prune (limit >= 0: the (limit+1)-th Delete fails), observes and judges it.
 func (e *c12Env) pruneOp(ctx *Ctx, opi int, limit int, bad func(class, format string, a ...interface{})) *xt.T {
-	before := c12Snapshot(e.db, e.refs.rs)
+	before := c12Snapshot(e.db, e.refs)
+	if d := e.refs.storeDiff(); d != "" {
+		bad("c12-ref-store-mismatch", "op %d: before the prune: %s", opi, d)
+	}
 	if before.readErr != nil {
 		bad("c12-snapshot-failed", "op %d: cannot read the store before the prune: %v", opi, before.readErr)
 	}
@@ -1359,7 +1418,10 @@ func (e *c12Env) pruneOp(ctx *Ctx, opi int, limit int, bad func(class, format st
 		}
 		e.db = db
 	}
-	after := c12Snapshot(e.db, e.refs.rs)
+	after := c12Snapshot(e.db, e.refs)
+	if d := e.refs.storeDiff(); d != "" {
+		bad("c12-ref-store-mismatch", "op %d: after the prune (prune / gc must not touch the refs of the case): %s", opi, d)
+	}
 	if after.readErr != nil {
 		bad("c12-snapshot-failed", "op %d: cannot read the store after the prune: %v", opi, after.readErr)
 	}
